@@ -1281,15 +1281,16 @@ impl<'ast, 'res> Resolver<'ast, 'res> {
             Expr::Unary { op, expr, .. } => {
                 let t = self.infer_expr_type(expr)?;
                 match op {
+                    // A dynamic operand is checked at run time; the result has the operator's type.
                     UnaryOp::Not => {
-                        if t == ValueType::Bool || t == ValueType::Null {
+                        if matches!(t, ValueType::Bool | ValueType::Null | ValueType::Dynamic) {
                             Some(ValueType::Bool)
                         } else {
                             None
                         }
                     }
                     UnaryOp::Minus => {
-                        if t == ValueType::Number {
+                        if matches!(t, ValueType::Number | ValueType::Dynamic) {
                             Some(ValueType::Number)
                         } else {
                             None
